@@ -47,8 +47,40 @@ def mutate_schema(draw, d, s):
 def cases(draw):
     d = draw(st.sampled_from(impl.DRAFTS))
     src = draw(st.sampled_from(["well-meant", "mutated", "mutated", "liberal", "liberal", "arbitrary", "metaschema",
-                                "deep", "number-mix"]))
-    if src == "number-mix":
+                                "deep", "number-mix", "unique-mix"]))
+    if src == "unique-mix":
+        # arrays the metaschema wants unique (enum in drafts 3/4, Draft 3's type / disallow, which may hold schemas)
+        # filled with items that are JSON-equal but spelled differently (1 / 1.0 inside an object or array, key
+        # order) next to look-alikes that are distinct (true / 1): uniqueness is JSON equality at any depth
+        # (drafts 6 and 7 demand uniqueness only of string arrays: the flavour would be vacuous there)
+        d = draw(st.sampled_from([3, 3, 4]))
+        pairs = [(1, 1.0), (0, 0.0), (0, -0.0), (2 ** 53, float(2 ** 53)), (3, 3.0), (1e2, 100), (True, 1), (False, 0),
+                 (1, 1), (1, 2), (1.0, 1.5), (True, 1.0), ("a", "a"), ("a", "b")]
+        a, b = draw(st.sampled_from(pairs))
+        if draw(st.booleans()):
+            a, b = b, a
+        key = draw(st.sampled_from(["enum", "enum", "type", "disallow"] if d == 3 else ["enum"]))
+        if key == "enum":
+            wraps = [lambda x: x, lambda x: [x], lambda x: {"a": x}, lambda x: {"a": [x], "b": 0}, lambda x: [[x], "s"],
+                     lambda x: {"minimum": x}]
+        else:
+            wraps = [lambda x: {"default": x}, lambda x: {"default": [x]}, lambda x: {"enum": [x, "z"]},
+                     lambda x: {"default": {"k": x}, "title": "t"}]
+            if not isinstance(a, (bool, str)) and not isinstance(b, (bool, str)):
+                wraps += [lambda x: {"minimum": x}, lambda x: {"maxLength": x}] if a >= 0 and b >= 0 else [lambda x: {"minimum": x}]
+        w = draw(st.sampled_from(wraps))
+        wa, wb = w(a), w(b)
+        if isinstance(wb, dict) and len(wb) == 2 and draw(st.booleans()):
+            wb = dict(reversed(list(wb.items())))
+        extras = draw(st.lists(st.sampled_from(["string", "number", "null", "zz"] if key != "enum" else ["x", None, 7, [], {}]),
+                               max_size=2, unique_by=repr))
+        arr = [wa] + extras + [wb]
+        if draw(st.booleans()):
+            arr = list(reversed(arr))
+        c = {key: arr}
+        if draw(st.integers(0, 2)) == 0:
+            c = draw(st.sampled_from([{"properties": {"p": c}}, {"items": c}, {"additionalProperties": c}]))
+    elif src == "number-mix":
         # several keywords of one kind whose values differ only in being integral or not (1.0 vs 1.5 vs 1): each
         # is judged for itself, in whatever order the metaschema is walked
         ks = ["maxLength", "minLength", "maxItems", "minItems"] + (["maxProperties", "minProperties"] if d >= 4 else [])
@@ -104,7 +136,8 @@ class C11(Prop):
                    "metaschemas with the repository's known Draft 3 laxness",
                    "format inside the metaschemas is not enforced by check_schema (no format checker is passed)",
                    "accepted candidates with $ref or uncompilable regexes are not passed on to the totality oracle"]
-    GATES = {"accepted": 1500, "rejected": 1500, "src:mutated:rejected": 300, "src:metaschema": 50}
+    GATES = {"accepted": 1500, "rejected": 1500, "src:mutated:rejected": 300, "src:metaschema": 50,
+             "src:unique-mix:rejected": 150, "src:unique-mix:accepted": 150}
     MIN_NONTRIVIAL = 1000
 
     def selftest(self):
